@@ -253,6 +253,9 @@ func C19(p *core.Program, r *core.Report) {
 	sort.Strings(ar)
 	r.Stats["tested_url_values"] = sortedKeys(testedForms)
 
+	// H10: no frame can come into being out of text when Apply parses the output again (shared with C05-S4)
+	checkLiteralTextRoundTrip(p, r, "H10")
+
 	// H9: a frame that survives (a rendered tweet inside its placeholder, a frame in a retained
 	// table) shows what its src names only if it has no srcdoc: the attribute allow-list of the
 	// output must not let srcdoc through. The list is found by content (the one fixed table of
